@@ -234,6 +234,16 @@ Section TAIL.
     exists Rt. split; [|split; [apply tail_fwd | apply tail_bwd]].
     intros c m. apply Rt_main. now destruct HC_parts as [_ [H _]].
   Qed.
+  Theorem tail_bisimulation_data db da :
+    tail_data_check f al db da = true ->
+    exists R, bisimulation M osem lv g f R /\
+      forall b i tb ta c m, nth_error db i = Some tb -> nth_error da i = Some ta ->
+        R (Run ta 0 (Some b) c m) (Run tb 0 (Some b) c m).
+  Proof.
+    intros H. unfold tail_data_check in H. apply (list_eqb_eq _ N_eqb_eq') in H. subst da. exists Rt. split.
+    - split; [|split; [apply tail_fwd | apply tail_bwd]]. intros c m. apply Rt_main. now destruct HC_parts as [_ [H _]].
+    - intros b i tb ta c m H1 H2. rewrite nth_error_map, H1 in H2. inversion H2; subst. apply arrive.
+  Qed.
 End TAIL.
 
 Theorem tail_check_sound f g al :
